@@ -357,7 +357,68 @@ def rule_tabstops(run, prog):
             f"expands to {bad[3]!r}") if bad else "ok", tab_if, evaluations=n_eval)
 
 
+FULL_RANGE_BOUNDS = ("len(context.tokens)", "context.tkn_scope", "context.arg_pos[1]", "len(context.tokens[:context.tkn_scope])")
+
+
+def rule_scan_complete(run, prog):
+    run.rule("R-3.4", "scan completeness: the loops that feed a limit (argument counter, per-token column test, newline "
+             "counter, per-line comment width) range over the whole unit: a counting while-loop may stop only on the nesting "
+             "depth, on end of input or on the end of the statement / parameter list; the for-loops iterate "
+             "context.tokens[:context.tkn_scope] resp. every line of the comment", floor=4)
+    # (a) the argument counter of CheckFuncDeclaration
+    fd = prog.method("CheckFuncDeclaration", "run")
+    run.require(fd is not None, "anchor vanished: CheckFuncDeclaration.run")
+    incs = [n for n in walk_fn(fd.node) if isinstance(n, ast.AugAssign) and isinstance(n.target, ast.Name)
+            and any(isinstance(a, ast.If) and "COMMA" in text(a.test) for a in ancestors(n))
+            and isinstance(n.op, ast.Add)]
+    run.require(len(incs) >= 1, "anchor vanished: the per-COMMA increment of CheckFuncDeclaration.run")
+    loop = next((a for a in ancestors(incs[0]) if isinstance(a, ast.While)), None)
+    run.require(loop is not None, "anchor vanished: the counting loop of CheckFuncDeclaration.run")
+    bad = []
+    depth_ok = False
+    for c in conjuncts(loop.test):
+        t = text(c)
+        if isinstance(c, ast.Compare) and len(c.ops) == 1 and isinstance(c.left, ast.Name) and isinstance(c.ops[0], ast.Gt) \
+                and isinstance(c.comparators[0], ast.Constant) and c.comparators[0].value == 0:
+            depth_ok = True                     # nesting depth > 0
+            continue
+        if "peek_token" in t and ("is not None" in t or t.startswith("context.peek_token")):
+            continue                            # end of input
+        if isinstance(c, ast.Compare) and len(c.ops) == 1 and isinstance(c.ops[0], (ast.Lt, ast.LtE)) \
+                and isinstance(c.left, ast.Name) and text(c.comparators[0]) in FULL_RANGE_BOUNDS:
+            continue                            # end of the statement / of the parameter list
+        bad.append(t)
+    # the depth variable really tracks parentheses: decremented under an RPARENTHESIS test
+    dec = [n for n in ast.walk(loop) if isinstance(n, ast.AugAssign) and isinstance(n.op, ast.Sub)
+           and any(isinstance(a, ast.If) and "RPARENTHESIS" in text(a.test) for a in ancestors(n))]
+    run.ob("R-3.4", f"{fd.key}::arg-scan-range", depth_ok and bool(dec) and not bad,
+           f"the scan that counts the parameters is cut short by `{' and '.join(bad)}` (not the nesting depth, end of input or "
+           f"end of the parameter list): parameters beyond that point are not counted", loop, condition=text(loop.test))
+    # the scan starts right after the name's opening parenthesis: initial value of the counter's index derives from fname_pos
+    # (b) per-token loops
+    for cname, what in (("CheckLineLen", "column test"), ("CheckLineCount", "newline counter")):
+        m = prog.method(cname, "run")
+        run.require(m is not None, f"anchor vanished: {cname}.run")
+        loops = [n for n in walk_fn(m.node) if isinstance(n, ast.For) and "tokens" in text(n.iter)]
+        ok = len(loops) >= 1 and text(loops[0].iter) in ("context.tokens[:context.tkn_scope]",)
+        brk = [x for x in ast.walk(loops[0]) if isinstance(x, (ast.Break, ast.Return))] if loops else []
+        run.ob("R-3.4", f"{m.key}::token-scan-range", ok and not brk,
+               f"the {what} does not visit every token of the statement (iterates `{text(loops[0].iter) if loops else '?'}`"
+               + (", leaves the loop early" if brk else "") + ")", loops[0] if loops else m.node)
+    # (c) every line of a block comment
+    m = prog.method("CheckCommentLineLen", "run")
+    loops = [n for n in walk_fn(m.node) if isinstance(n, ast.For) and "lines" in text(n.iter)]
+    ok = len(loops) == 1
+    if ok:
+        it = loops[0].iter
+        seq = it.args[0] if isinstance(it, ast.Call) and text(it.func) == "enumerate" and it.args else it
+        ok = isinstance(seq, ast.Name) and not any(isinstance(x, (ast.Break, ast.Return)) for x in ast.walk(loops[0]))
+    run.ob("R-3.4", f"{m.key}::line-scan-range", ok,
+           "the comment-width test does not visit every line of the block comment", loops[0] if loops else m.node)
+
+
 def check(run, prog):
     rule_thresholds(run, prog)
+    rule_scan_complete(run, prog)
     rule_counters(run, prog)
     rule_tabstops(run, prog)
